@@ -5,6 +5,16 @@
 //!     allocated during the cycle.
 //!  B. Bounded heap under the real pacing: loop programs whose live data is bounded are run for N and 10·N
 //!     iterations; the peak heap (bytes and objects, read through the hook after every step) must not grow with N.
+//!  D. The pacing model (M5p) against the REAL pacing (manual mode off): before every VM instruction the harness calls the
+//!     real `maybe_gc` itself and reads the abstract snapshot, the object sizes and the counters before and after
+//!     (hook `verif_gc::pacing`); the model's `maybeGc` must map the one to the other (`gcp gc`, or `gcp idle` when
+//!     an idle call changes nothing); the instruction (and the host call it triggers) must satisfy the pacing
+//!     contract (`gcp mut`).  Oracles (executable conclusions of the theorems, reported as failures of the
+//!     implementation, separately from model mismatches): debt >= heap_size = recount; a marking increment drains the
+//!     gray stack (what is left are roots found by the rescan); a sweeping increment ends the cycle with
+//!     last_gc_heap_size = heap_size; a cycle spans at most reachCount + 3 calls; at every step heap_size <=
+//!     boundB(R, A, M) with R, A, M as observed on the run so far (theorem C07_bounded_heap_hits) — the run stops at the
+//!     first step that exceeds it, which gives the concrete program when the pacing no longer bounds the heap.
 //!  C. Drop frees everything: a counting global allocator measures live bytes around repeated
 //!     compile / Runtime::new / run / drop rounds; after warm-up the figure must not grow.
 use abra_core::compile_bytecode;
@@ -115,6 +125,314 @@ fn peak_heap(src: &str) -> Option<(usize, usize, String)> {
     Some((pb, po, out))
 }
 
+
+// ---------------------------------------------------------------- D: the pacing model against the real pacing
+struct PaceOut {
+    cases: Vec<(String, String)>,
+    /// the implementation contradicts an executable conclusion of the pacing theorems
+    spec: Vec<String>,
+    hist: Vec<String>,
+    steps: u64,
+    peak: usize,
+    r_obs: usize,
+    n_obs: usize,
+    a_obs: usize,
+    /// most marking increments of one cycle that ended with the rescan finding an unmarked root
+    m_obs: usize,
+    cycles: u64,
+    max_cycle_calls: u64,
+    leak_not_ok: bool,
+    outcome: String,
+}
+
+/// pacing snapshot of one thread: the raw abstract snapshot, the counters (heap_size, last_gc_heap_size, gc_debt,
+/// foreign gray bytes), the object sizes, and (unless `light`) the seven-word request form with renamed addresses
+struct PSnap {
+    raw: String,
+    ctr: (usize, usize, usize, usize),
+    sizes: Vec<usize>,
+    canon: String,
+}
+
+fn psnap(t: &abra_core::vm::VmGreenThread, rn: &mut Renamer, light: bool) -> PSnap {
+    let raw = verif_gc::snapshot(t);
+    let (hs, last, debt, foreign, sizes) = verif_gc::pacing(t);
+    let mut canon = String::new();
+    if !light {
+        let p = parse_snap(&raw);
+        let mut sz = String::from("sz=");
+        for (i, (h, n)) in p.heap.iter().zip(sizes.iter()).enumerate() {
+            if i > 0 {
+                sz.push(';');
+            }
+            sz.push_str(&format!("{}:{}", h.0, n));
+        }
+        // the counters are appended after renaming (a large debt must not be taken for an address)
+        canon = format!("{} ctr={},{},{}", rn.canon(&format!("{raw} {sz}")), hs, last, debt);
+    }
+    PSnap { raw, ctr: (hs, last, debt, foreign), sizes, canon }
+}
+
+fn phase_of(raw: &str) -> char {
+    raw.as_bytes()[6] as char
+}
+
+fn reach_stats(raw: &str, sizes: &[usize]) -> (usize, usize) {
+    let p = parse_snap(raw);
+    let r = reachable(&p);
+    let mut bytes = 0;
+    let mut n = 0;
+    for (h, s) in p.heap.iter().zip(sizes.iter()) {
+        if r.contains(&h.0) {
+            bytes += s;
+            n += 1;
+        }
+    }
+    (bytes, n)
+}
+
+fn bound_b(r: usize, a: usize, n: usize) -> usize {
+    2 * r + (3 * n + 9) * a
+}
+
+/// Runs `src` with the collector of the MAIN green thread driven from here: the real `maybe_gc` is called once before
+/// every instruction of that thread (other green threads run under their own real pacing, unobserved).
+/// `skip` = 0: the real pacing.  `skip` = k > 0: while marking, the call is made only before every (k+1)-th
+/// instruction, so that marking phases are long enough for barrier pushes (every call is still the real function;
+/// such a run is a run of the model with more allocation between calls).
+/// `light`: no model cases (for programs with very large heaps); the oracles are the same.
+/// at most two reports per kind of failure (a broken pacing fails at every call)
+fn fail(spec: &mut Vec<String>, kinds: &mut std::collections::HashMap<&'static str, u32>, kind: &'static str, msg: String) {
+    let n = kinds.entry(kind).or_insert(0);
+    *n += 1;
+    if *n <= 2 {
+        spec.push(msg);
+    }
+}
+
+fn pace_run(src: &str, max_steps: u64, skip: u64, light: bool) -> PaceOut {
+    let mut po = PaceOut { cases: vec![], spec: vec![], hist: vec![], steps: 0, peak: 0, r_obs: 0, n_obs: 0, a_obs: 0, m_obs: 0, cycles: 0, max_cycle_calls: 0, leak_not_ok: false, outcome: String::new() };
+    let program = match compile_bytecode("main.abra", provider(src, &[])) {
+        Ok(p) => p,
+        Err(e) => {
+            po.outcome = format!("rejected {}", e.to_string().lines().next().unwrap_or(""));
+            return po;
+        }
+    };
+    verif_gc::set_manual(true);
+    let mut rt = Runtime::new(program);
+    let mut rn = Renamer { map: std::collections::HashMap::new() };
+    let mut out = String::new();
+    let Some(main_id) = rt.iter_threads_mut().next().map(|t| t.id()) else { return po };
+    // the running cycle: (calls of maybe_gc so far including the starting one, reachable objects at its start, rescan hits)
+    let mut cycle: Option<(u64, usize, usize)> = None;
+    // heap_size right after the last call of maybe_gc
+    let mut base = 0usize;
+    let mut total_steps = 0u64;
+    let mut kinds: std::collections::HashMap<&'static str, u32> = std::collections::HashMap::new();
+    loop {
+        total_steps += 1;
+        if total_steps > max_steps {
+            po.outcome = "timeout".into();
+            break;
+        }
+        let finish = |status: &abra_core::vm::RuntimeStatus| match &status.kind {
+            RuntimeStatusKind::Done => Some("done".to_string()),
+            RuntimeStatusKind::MainThreadError(e) => Some(format!("error:{}", error_kind(&e.to_string()))),
+            _ => None,
+        };
+        let front = rt.iter_threads_mut().next().map(|t| t.id());
+        if front.is_some() && front != Some(main_id) {
+            // another green thread's turn: it runs under its own real pacing
+            verif_gc::set_manual(false);
+            let status = rt.run_n_steps(1);
+            verif_gc::set_manual(true);
+            if let Some(d) = finish(&status) {
+                po.outcome = d;
+                break;
+            }
+            if matches!(status.kind, RuntimeStatusKind::PendingHostFunc) {
+                service_host(&mut rt, &mut out);
+            }
+            continue;
+        }
+        let Some(t) = rt.iter_threads_mut().next() else { break };
+        let s0 = psnap(t, &mut rn, light);
+        let (h0, l0, d0, f0) = s0.ctr;
+        let ph0 = phase_of(&s0.raw);
+        let call = !(skip > 0 && ph0 == 'm' && po.steps % (skip + 1) != 0);
+        let starts = ph0 == 'i' && h0 > 2 * l0;
+        let mut rc = 0;
+        if call && starts {
+            // the hypotheses of the bound are about the states in which a cycle starts
+            let (rb, n) = reach_stats(&s0.raw, &s0.sizes);
+            rc = n;
+            po.r_obs = po.r_obs.max(rb);
+            po.n_obs = po.n_obs.max(n);
+        }
+        if call {
+            verif_gc::set_manual(false);
+            t.maybe_gc();
+            verif_gc::set_manual(true);
+        }
+        let s1 = if call { psnap(t, &mut rn, light) } else { PSnap { raw: s0.raw.clone(), ctr: s0.ctr, sizes: vec![], canon: s0.canon.clone() } };
+        let (h1, l1, d1, f1) = s1.ctr;
+        let ph1 = phase_of(&s1.raw);
+        if call {
+            let recount = verif_gc::heap_recount(t);
+            let leak = f0.saturating_sub(f1);
+            po.hist.push(format!("pace-gc:{ph0}{ph1}"));
+            base = h1;
+            if leak > 0 {
+                po.hist.push("pace-gc:foreign-charge".into());
+            }
+            if light {
+            } else if ph0 == 'i' && s0.canon == s1.canon {
+                po.cases.push((format!("gcp idle {h0} {l0} {d0}"), "stay".into()));
+            } else {
+                po.cases.push((format!("gcp gc {leak} {} {}", s0.canon, s1.canon), "ok".into()));
+            }
+            // ---- executable conclusions of the theorems on this call (implementation vs theorem)
+            if h1 > d1 || h1 != recount {
+                fail(&mut po.spec, &mut kinds, "acct", format!("after maybe_gc at VM step {}: heap_size {h1}, gc_debt {d1}, bytes in the heap list {recount} (theorem C07_debt_covers_heap: heap_size = sum of sizes <= gc_debt)", po.steps));
+            }
+            let leak_ok = leak == 0 || leak + h0 < 2 * d0;
+            if ph0 != 'i' && !leak_ok {
+                po.leak_not_ok = true;
+                po.hist.push("pace-gc:foreign-charge-exceeds-slack".into());
+            }
+            let mut hit = false;
+            if ph0 == 'm' && leak_ok {
+                let p0 = parse_snap(&s0.raw);
+                let p1 = parse_snap(&s1.raw);
+                let gray1: Vec<usize> = s1.raw.split(' ').find_map(|w| w.strip_prefix("gray=")).unwrap_or("").split(',').filter(|x| !x.is_empty()).map(|x| x.parse().unwrap()).collect();
+                let unmarked0: std::collections::HashSet<usize> = p0.heap.iter().filter(|h| !h.1).map(|h| h.0).collect();
+                let drained = gray1.iter().all(|g| p1.roots.contains(g) && unmarked0.contains(g));
+                if !(ph1 == 's' && gray1.is_empty()) && !(ph1 == 'm' && !gray1.is_empty() && drained) {
+                    fail(&mut po.spec, &mut kinds, "drain", format!("marking increment at VM step {} (heap_size {h0}, gc_debt {d0}: the slice 2*debt covers the heap) did not drain the gray stack: phase {ph1}, {} gray entries left (theorem C07_increment_covers_heap)", po.steps, gray1.len()));
+                } else if ph1 == 'm' {
+                    hit = true;
+                    po.hist.push("pace-gc:rescan-hit".into());
+                }
+                if h1 != h0 {
+                    fail(&mut po.spec, &mut kinds, "mark-frees", format!("marking increment at VM step {} changed heap_size from {h0} to {h1}", po.steps));
+                }
+            }
+            if ph0 == 's' && !(ph1 == 'i' && l1 == h1 && h1 <= h0) {
+                fail(&mut po.spec, &mut kinds, "sweep", format!("sweeping increment at VM step {} (heap_size {h0}, gc_debt {d0}: the slice 2*debt covers the heap) did not finish the cycle: phase {ph1}, heap_size {h1}, last_gc_heap_size {l1} (theorem C07_increment_covers_heap)", po.steps));
+            }
+            if ph0 == 'i' && ph1 == 'm' {
+                cycle = Some((1, rc, 0));
+                if !starts {
+                    fail(&mut po.spec, &mut kinds, "early-start", format!("a cycle started at VM step {} with heap_size {h0} <= 2 * last_gc_heap_size {l0}", po.steps));
+                }
+            } else if starts {
+                fail(&mut po.spec, &mut kinds, "no-start", format!("no cycle started at VM step {} although heap_size {h0} > 2 * last_gc_heap_size {l0}", po.steps));
+            } else if ph0 != 'i' {
+                if let Some((calls, rc0, hits)) = cycle.as_mut() {
+                    *calls += 1;
+                    if hit {
+                        *hits += 1;
+                        po.m_obs = po.m_obs.max(*hits);
+                    }
+                    if !po.leak_not_ok && *calls > *rc0 as u64 + 3 {
+                        fail(&mut po.spec, &mut kinds, "cycle-len", format!("a collection cycle is still running after {} calls of maybe_gc although only {} objects were reachable when it started (theorem C07_cycle_spans_k_steps: at most reachCount + 3)", *calls, *rc0));
+                    }
+                    if ph1 == 'i' {
+                        po.cycles += 1;
+                        po.max_cycle_calls = po.max_cycle_calls.max(*calls);
+                        po.hist.push(format!("pace-cycle-calls:{}", (*calls).min(6)));
+                        cycle = None;
+                    }
+                }
+            }
+            po.peak = po.peak.max(h1);
+        }
+        // ---- one VM instruction of the main thread (maybe_gc is switched off inside run_n_steps)
+        let status = rt.run_n_steps(1);
+        po.steps += status.steps_consumed as u64;
+        if let Some(d) = finish(&status) {
+            po.outcome = d;
+            break;
+        }
+        let Some(t) = rt.iter_threads_mut().find(|t| t.id() == main_id) else { break };
+        let s2 = psnap(t, &mut rn, light);
+        if !light && s2.canon != s1.canon {
+            po.hist.push(format!("pace-mut:{ph1}"));
+            po.cases.push((format!("gcp mut {} {}", s1.canon, s2.canon), "ok".into()));
+        }
+        let (mut h_end, _, mut d_end, _) = s2.ctr;
+        if matches!(status.kind, RuntimeStatusKind::PendingHostFunc) {
+            service_host(&mut rt, &mut out);
+            let Some(t) = rt.iter_threads_mut().find(|t| t.id() == main_id) else { break };
+            let s3 = psnap(t, &mut rn, light);
+            if !light && s3.canon != s2.canon {
+                po.hist.push(format!("pace-mut-host:{ph1}"));
+                po.cases.push((format!("gcp mut {} {} #host", s2.canon, s3.canon), "ok".into()));
+            }
+            h_end = s3.ctr.0;
+            d_end = s3.ctr.2;
+        }
+        if h_end < h1 || d_end - d1 != h_end - h1 {
+            fail(&mut po.spec, &mut kinds, "mut-bytes", format!("VM step {}: heap_size went from {h1} to {h_end} and gc_debt from {d1} to {d_end} (an instruction never frees, and the debt grows with the heap)", po.steps));
+        }
+        po.a_obs = po.a_obs.max(h_end.saturating_sub(base));
+        po.peak = po.peak.max(h_end);
+        // the conclusion of C07_bounded_heap_hits on the run so far (a prefix of a run is a run)
+        if !po.leak_not_ok && po.peak > bound_b(po.r_obs, po.a_obs, po.m_obs) {
+            po.outcome = "stopped: heap bound exceeded".into();
+            break;
+        }
+    }
+    verif_gc::set_manual(false);
+    po
+}
+
+/// programs that pop nested arrays in consecutive instructions (`x.pop().pop()`): when a cycle starts just
+/// before, the popped white object is on the stack and no longer in its (gray) parent: the rescan finds it
+fn nested_pop_program(pad: usize, depth: usize, rounds: usize) -> String {
+    let mut s = String::new();
+    s.push_str("var keep = \"\"\nvar r = 0\n");
+    s.push_str(&format!("while r < {rounds} {{\n"));
+    let mut lit = String::from("\"leaf\" .. r");
+    for _ in 0..depth {
+        lit = format!("[{lit}]");
+    }
+    // padding garbage of varying size shifts the allocation that crosses the threshold
+    for j in 0..pad {
+        s.push_str(&format!("  let g{j} = \"pad{j}-\" .. r\n"));
+    }
+    s.push_str("  if r % 3 == 0 {\n    let h = \"more-\" .. r\n  }\n");
+    // the array literals are allocated by the instructions directly before the pops
+    s.push_str(&format!("  keep = {lit}{}\n", ".pop()".repeat(depth)));
+    s.push_str("  r = r + 1\n}\nprintln(keep)\n");
+    s
+}
+
+/// a barriered store of a string constant right after an allocation: when that allocation starts a cycle the
+/// array is already marked, so the write barrier pushes the static string (outside the collected heap) on the
+/// gray stack and the next marking increment is charged for it (`leak` of the model)
+fn static_store_program(lits: usize, rounds: usize) -> String {
+    let mut s = String::new();
+    for j in 0..lits {
+        s.push_str(&format!("let s{j} = \"a-string-constant-number-{j}-{}\"\n", "x".repeat(j * 7)));
+    }
+    s.push_str("let arr: array<string> = []\nvar r = 0\n");
+    s.push_str(&format!("while r < {rounds} {{\n"));
+    for j in 0..lits {
+        s.push_str(&format!("  let g{j} = \"pad{j}-\" .. r\n  arr.push(s{j})\n"));
+    }
+    s.push_str("  while arr.len() > 3 {\n    let d = arr.pop()\n  }\n");
+    s.push_str("  r = r + 1\n}\nprintln(arr.len())\n");
+    s
+}
+
+/// the main thread keeps receiving large messages made of many small objects (ChannelRead rebuilds the whole
+/// message on the reader's heap in ONE instruction, so A = the size of a message); only one message is alive
+fn consumer_program(n: usize, rounds: usize) -> String {
+    format!("let data: channel<array<(int, int)>> = channel()\nlet ack: channel<int> = channel()\ntask {{\n  let batch: array<(int, int)> = []\n  var k = 0\n  while k < {n} {{\n    batch.push((k, k + 1))\n    k = k + 1\n  }}\n  var r = 0\n  while r < {rounds} {{\n    data.write(batch)\n    let a = ack.read()\n    r = r + 1\n  }}\n}}\nvar round = 0\nvar sum = 0\nwhile round < {rounds} {{\n  let m = data.read()\n  let (first, second) = m[0]\n  sum = sum + first + m.len()\n  ack.write(round)\n  round = round + 1\n}}\nprintln(sum)\n")
+}
+
 fn main() {
     let mut ctx = Ctx::from_env("C07");
     let quick = ctx.quick();
@@ -163,6 +481,85 @@ fn main() {
             _ => ctx.spec_fail(format!("loop program {name} did not run to completion")),
         }
     }
+
+
+    // ---- D: the pacing model against the real pacing
+    let pn = if quick { 25u64 } else { 120 };
+    // (name, source, skip, light)
+    let mut pjobs: Vec<(String, String, u64, bool)> = loop_progs(pn).into_iter().map(|(n, s)| (format!("loop-{n}"), s, 0, false)).collect();
+    for (i, (pad, depth)) in [(0usize, 2usize), (1, 3), (2, 2), (3, 4), (5, 3)].iter().enumerate() {
+        if quick && i >= 3 {
+            break;
+        }
+        pjobs.push((format!("nested-pop-{pad}-{depth}"), nested_pop_program(*pad, *depth, if quick { 12 } else { 40 }), 0, false));
+    }
+    pjobs.push(("static-store-6".into(), static_store_program(6, if quick { 10 } else { 40 }), 0, false));
+    pjobs.push(("static-store-6-skip".into(), static_store_program(6, if quick { 10 } else { 40 }), 7, false));
+    if !quick {
+        pjobs.push(("static-store-11-skip".into(), static_store_program(11, 30), 12, false));
+    }
+    // large messages of many small objects: one instruction allocates a whole message; oracles only
+    pjobs.push(("consumer-4000".into(), consumer_program(4000, if quick { 24 } else { 48 }), 0, true));
+    // a small one with every step validated against the model
+    pjobs.push(("consumer-40".into(), consumer_program(40, if quick { 8 } else { 30 }), 0, false));
+    for i in 0..(if quick { 6 } else { 30 }) {
+        let seed = ctx.rng.next();
+        let n = 8 + ctx.rng.below(if quick { 10 } else { 24 }) as usize;
+        let sk = if i % 2 == 0 { 0 } else { 1 + ctx.rng.below(9) };
+        pjobs.push((format!("pg{i}"), gen_program(seed, n), sk, false));
+    }
+    for k in 0..(if quick { 4 } else { 12 }) {
+        let k = if quick { k * 3 + 1 } else { k };
+        pjobs.push((format!("mover{k}"), mover_program(k, 6), (k % 3) as u64 * 4, false));
+    }
+    let presults = par_map(&pjobs, |(_, src, skip, light)| {
+        std::panic::catch_unwind(std::panic::AssertUnwindSafe(|| pace_run(src, 2_000_000, *skip, *light))).ok()
+    });
+    let (mut pcycles, mut pmax, mut psteps, mut lsteps) = (0u64, 0u64, 0u64, 0u64);
+    for ((name, src, skip, light), r) in pjobs.iter().zip(presults) {
+        let name = &if *skip > 0 { format!("{name} (maybe_gc called every {} instructions while marking)", skip + 1) } else { name.clone() };
+        let Some(r) = r else {
+            ctx.spec_fail(format!("program {name} under the real pacing crashed the host; source: {src:?}"));
+            continue;
+        };
+        ctx.count(if *skip > 0 { "pace-run-sparse-marking" } else { "pace-run" });
+        if *light {
+            lsteps += r.steps;
+        } else if *skip == 0 {
+            psteps += r.steps;
+        }
+        pcycles += r.cycles;
+        pmax = pmax.max(r.max_cycle_calls);
+        for h in &r.hist {
+            ctx.count(h);
+        }
+        if r.outcome != "done" {
+            ctx.notes.push(format!("pace {name}: outcome {}", r.outcome));
+        }
+        // the conclusions of C07_bounded_heap_hits (sharp: M rescan hits per cycle) and C07_bounded_heap (N reachable
+        // objects) on this run, with the hypotheses as observed
+        let b = bound_b(r.r_obs, r.a_obs, r.m_obs);
+        let bn = bound_b(r.r_obs, r.a_obs, r.n_obs);
+        ctx.case(format!("gcp bound {} {} {}", r.r_obs, r.a_obs, r.m_obs), b.to_string());
+        ctx.case(format!("gcp bound {} {} {}", r.r_obs, r.a_obs, r.n_obs), bn.to_string());
+        if r.leak_not_ok {
+            ctx.count("pace-bound-oracle-skipped");
+        } else if r.peak > b || r.peak > bn {
+            ctx.spec_fail(format!("program {name} under the real pacing: reachable data stays bounded but heap_size reached {} after {} VM steps of the main thread, above the bound 2R + (3M + 9)A = {b} with R = {} reachable bytes whenever a cycle started, A = {} bytes allocated at most between two calls of maybe_gc, M = {} marking increments per cycle at most that found an unmarked root (theorem C07_bounded_heap_hits; with N = {} reachable objects the bound of C07_bounded_heap is {bn}); source: {src:?}", r.peak, r.steps, r.r_obs, r.a_obs, r.m_obs, r.n_obs));
+        } else {
+            ctx.count("pace-bound-oracle-ok");
+        }
+        for s in r.spec.iter().take(4) {
+            ctx.spec_fail(format!("program {name} under the real pacing: {s}; source: {src:?}"));
+        }
+        if name.starts_with("loop-") || name.starts_with("nested") || name.starts_with("static") || name.starts_with("consumer") {
+            ctx.notes.push(format!("pace {name}: {} steps, {} cycles (at most {} calls of maybe_gc each), peak {} B, R {} B, N {}, M {}, A {} B, bound {b} B", r.steps, r.cycles, r.max_cycle_calls, r.peak, r.r_obs, r.n_obs, r.m_obs, r.a_obs));
+        }
+        for (req, imp) in r.cases {
+            ctx.case(req, imp);
+        }
+    }
+    ctx.notes.push(format!("real pacing: {psteps} VM steps validated against the pacing model (+ {lsteps} steps with the oracles only), {pcycles} complete cycles, longest cycle {pmax} calls of maybe_gc"));
 
     // ---- A: per-transition validation + cycle completeness on many completed cycles
     let n_progs = if quick { 24 } else { 120 };
